@@ -414,7 +414,7 @@ class Stream(AbstractStream):
     def __getitem__(self, key):
         phase = self.phase
         if key.lower() == phase.lower(): return self
-        raise tmo.UndefinedPhase(phase)
+        raise tmo.exceptions.UndefinedPhase(key)
     
     def __reduce__(self):
         return self.from_data, (self.get_data(), self._ID, self._price, self.characterization_factors, self._thermo)
